@@ -55,7 +55,8 @@ def simple_match(rng):
 
 class GrammarGen:
     def __init__(self, rng, nrules=None, links=False, modifiers=True, comment_p=0.4, suppress=True,
-                 predicates=True, unordered=True, eolterm=True, abstract=True, composite_comment=False):
+                 predicates=True, unordered=True, eolterm=True, abstract=True, composite_comment=False,
+                 flavours=False):
         self.rng = rng
         self.n = nrules or rng.randint(1, 5)
         self.links = links
@@ -67,6 +68,9 @@ class GrammarGen:
         self.eolterm = eolterm
         self.abstract = abstract
         self.composite_comment = composite_comment
+        # opt-in (off: generation is bit-identical to what it was before the option existed): alternatives that
+        # reach the SAME rule at the SAME input position through different kinds of reference (see ref_flavours)
+        self.flavours = flavours
 
     def grammar(self):
         rng = self.rng
@@ -155,9 +159,12 @@ class GrammarGen:
             return {"k": "ref", "name": rng.choice(ms)}
 
         def expr(d):
-            c = rng.weighted([("atom", 5), ("seq", 3 if d else 0), ("alt", 3 if d else 0), ("rep", 2 if d else 0)])
+            c = rng.weighted([("atom", 5), ("seq", 3 if d else 0), ("alt", 3 if d else 0), ("rep", 2 if d else 0),
+                              ("flav", 2 if self.flavours and d and ms else 0)])
             if c == "atom":
                 e = atom()
+            elif c == "flav":
+                e = self.ref_flavours(ms, lambda: expr(d - 1), None)
             elif c == "seq":
                 e = {"k": "seq", "xs": [expr(d - 1) for _ in range(rng.randint(2, 3))]}
             elif c == "alt":
@@ -239,6 +246,55 @@ class GrammarGen:
             eol = True
         return {"k": "rep", "op": op, "x": x, "sep": sep, "eol": eol}
 
+    FLAVOURS = ["plain", "sup", "and", "not", "opt", "plus"]
+
+    def ref_flavours(self, pool, cont, attrs):
+        """Ordered choice whose alternatives all reach one rule R (from `pool`, preferably a non-terminal one: only
+        those are memoised) at the same input position, each through a different kind of reference -- plain `R`,
+        suppressed `R-`, assignment `a=R` / `a+=R` (attrs given), under a lookahead `&R R` / `!R x`, optional `R?`,
+        repeated `R+` -- optionally behind a common literal prefix, and each followed by its own continuation
+        `cont()`.  Whatever the parser keeps per (expression, position) -- memo tables, comment/whitespace caches --
+        is filled by an earlier alternative that fails later on and is then consulted through another kind of
+        reference."""
+        rng = self.rng
+        nonterm = [n for n in pool if self.bodies.get(n, {}).get("k") not in (None, "str", "re")]
+        name = rng.choice(nonterm or pool)
+        ref = {"k": "ref", "name": name}
+        null = self.nullable(ref)
+        kinds = list(self.FLAVOURS) + (["asgn", "asgn", "list"] if attrs else [])
+        n = rng.randint(2, 3)
+        ks = [rng.choice(kinds) for _ in range(n)]
+        if "sup" not in ks and rng.chance(0.4):
+            ks[rng.below(n)] = "sup"
+        if len(set(ks)) == 1:
+            ks[-1] = "sup" if ks[0] != "sup" else "plain"
+        pre = [lit(rng)] if rng.chance(0.4) else []
+        alts = []
+        for k in ks:
+            if k in ("plus", "list") and null:
+                k = "plain" if k == "plus" else "asgn"
+            if k == "plain":
+                head = [dict(ref)]
+            elif k == "sup":
+                head = [dict(ref, sup=True)]
+            elif k == "asgn":
+                head = [{"k": "asgn", "attr": rng.choice(attrs), "op": "=", "rhs": dict(ref), "sep": None, "eol": False}]
+            elif k == "list":
+                head = [{"k": "asgn", "attr": rng.choice(attrs), "op": "+=", "rhs": dict(ref),
+                         "sep": {"k": "str", "v": ","} if rng.chance(0.3) else None, "eol": False}]
+            elif k == "and":
+                real = dict(ref) if not attrs or rng.chance(0.5) else \
+                    {"k": "asgn", "attr": rng.choice(attrs), "op": "=", "rhs": dict(ref), "sep": None, "eol": False}
+                head = [{"k": "pred", "neg": False, "x": dict(ref)}, real]
+            elif k == "not":
+                head = [{"k": "pred", "neg": True, "x": dict(ref)}, simple_match(rng)]
+            elif k == "opt":
+                head = [{"k": "rep", "op": "?", "x": dict(ref), "sep": None, "eol": False}]
+            else:
+                head = [{"k": "rep", "op": "+", "x": dict(ref), "sep": None, "eol": False}]
+            alts.append({"k": "seq", "xs": [dict(x) for x in pre] + head + [cont()]})
+        return {"k": "alt", "xs": alts}
+
     def asgn(self, later, attrs, inrep=False):
         rng = self.rng
         attr = rng.choice(attrs)
@@ -293,9 +349,13 @@ class GrammarGen:
 
         def expr(d, first, inrep=False):
             c = rng.weighted([("atom", 4), ("seq", 4 if d else 0), ("alt", 2 if d else 0), ("rep", 2 if d else 0),
-                              ("shared", 2 if d and later else 0)])
+                              ("shared", 2 if d and later else 0),
+                              ("flav", 3 if self.flavours and d and later else 0)])
             if c == "atom":
                 e = atom(first, inrep)
+            elif c == "flav":
+                e = self.ref_flavours(later, lambda: expr(d - 1, False, inrep), attrs)
+                used[0] = used[0] or any(h["k"] == "asgn" for a in e["xs"] for h in a["xs"][:-1])
             elif c == "seq":
                 n = rng.randint(2, 4)
                 e = {"k": "seq", "xs": [expr(d - 1, first and i == 0, inrep) for i in range(n)]}
